@@ -28,16 +28,20 @@ func VerifAccept(conf TrustIPConf, session *bfe_basic.Session) error {
 }
 
 // VerifC29Module is a module instance started by the real Init (conf file + data file under confRoot).
-type VerifC29Module struct{ m *ModuleTrustClientIP }
+type VerifC29Module struct {
+	m   *ModuleTrustClientIP
+	Cbs *bfe_module.BfeCallbacks // the callbacks Init registered its accept handler in
+}
 
 // VerifC29Init starts the module the way bfe does: Init reads <confRoot>/mod_trust_clientip/mod_trust_clientip.conf,
 // loads the data file it names and registers the accept and reload handlers.
 func VerifC29Init(confRoot string) (*VerifC29Module, error) {
 	m := NewModuleTrustClientIP()
-	if err := m.Init(bfe_module.NewBfeCallbacks(), web_monitor.NewWebHandlers(), confRoot); err != nil {
+	cbs := bfe_module.NewBfeCallbacks()
+	if err := m.Init(cbs, web_monitor.NewWebHandlers(), confRoot); err != nil {
 		return nil, err
 	}
-	return &VerifC29Module{m}, nil
+	return &VerifC29Module{m: m, Cbs: cbs}, nil
 }
 
 // Reload is what the registered reload web handler runs (loadConfData with an empty query: default path).
